@@ -73,13 +73,45 @@ def feed(pieces, threshold, budget_scale=1.0, use_budget=True):
             cpu = time.thread_time() - cpu0
         if cpu > CPU_LIMIT and len(before) < 20000:
             # not a wall-clock verdict: CPU time of this thread, for a few KB of input, three to four orders of magnitude above
-            # what the call needs (time spent where no Python line event is raised: a regular expression, a C-level loop)
-            res.error = (j, "hang", f"one Buffer.process call on {len(before)} buffered characters burnt {cpu:.2f} s of CPU time (limit {CPU_LIMIT} s)")
-            break
+            # what the call needs (time spent where no Python line event is raised: a regular expression, a C-level loop).
+            # A blow-up that is caused by the CONTENT repeats on the same content; a collector pass or a descheduled virtual CPU
+            # booked on this call does not: the verdict is the smallest of three measurements.
+            cpu = min(cpu, confirm_cpu(before, threshold))
+            if cpu > CPU_LIMIT:
+                res.error = (j, "hang", f"one Buffer.process call on {len(before)} buffered characters burnt {cpu:.2f} s of CPU time (limit {CPU_LIMIT} s)")
+                break
+            UNCONFIRMED_SPIKES[0] += 1
         data = buf.data
         res.after.append({"data_len": buf.data_len, "delivered": len(res.delivered), "fed": len(fed),
                           "suffix_ok": fed.endswith(data), "data": data if len(data) < 200 else None})
     return res
+
+
+UNCONFIRMED_SPIKES = [0]      # CPU-time readings above the limit that did not repeat on the same content
+
+
+def confirm_cpu(data, threshold, repeats=2):
+    """Smallest CPU time of `repeats` further Buffer.process calls on a fresh Buffer holding the same text, garbage collector off."""
+    import gc
+    from indi.transport.buffer import Buffer
+    best = float("inf")
+    was = gc.isenabled()
+    gc.disable()
+    try:
+        for _ in range(repeats):
+            b = Buffer()
+            b.max_buffer_size_before_frontal_cleanup = threshold
+            b.append(data)
+            t0 = time.thread_time()
+            try:
+                b.process(lambda m: None)
+            except BaseException:
+                pass
+            best = min(best, time.thread_time() - t0)
+    finally:
+        if was:
+            gc.enable()
+    return best
 
 
 def guard_process(patch):
@@ -95,13 +127,18 @@ def guard_process(patch):
         def process(self, callback):
             stats["calls"] += 1
             cpu0 = time.thread_time()
-            n = len(self.data)
+            data_before = self.data
+            n = len(data_before)
             try:
                 return sb.run(budget_for(self.data), orig, self, callback)
             finally:
                 if sb.steps > stats["max_steps"]:
                     stats["max_steps"] = sb.steps
                 cpu = time.thread_time() - cpu0
+                if n < 20000 and cpu > CPU_LIMIT:
+                    cpu = min(cpu, confirm_cpu(data_before, self.max_buffer_size_before_frontal_cleanup))
+                    if cpu <= CPU_LIMIT:
+                        UNCONFIRMED_SPIKES[0] += 1
                 if n < 20000 and cpu > stats.get("max_cpu", 0.0):
                     stats["max_cpu"] = cpu
         return process
